@@ -1,0 +1,8 @@
+//go:build !verif
+
+package engine
+
+import "github.com/jmeaster30/vore/libvore/bytecode"
+
+// verifStep is a no-op unless the package is built with the `verif` tag.
+func verifStep(inst bytecode.SearchInstruction, state *SearchEngineState) {}
